@@ -12,7 +12,6 @@
 package main
 
 import (
-	"unsafe"
 	"bufio"
 	"encoding/json"
 	"flag"
@@ -26,6 +25,7 @@ import (
 	"sync"
 	"sync/atomic"
 	"time"
+	"unsafe"
 )
 
 // Div is one divergence between the specification's prediction (or the
@@ -63,7 +63,13 @@ type Summary struct {
 	Tags     map[string]int64 `json:"tags"`
 	Samples  []any            `json:"samples"`
 	Extra    map[string]int64 `json:"extra,omitempty"`
+	// divergences beyond the first divKeep of each kind (known-finding id or api) are only counted
+	Suppressed map[string]int64 `json:"suppressed,omitempty"`
 }
+
+const divKeep = 300
+
+var divCount = map[string]int{}
 
 var (
 	evals   atomic.Int64
@@ -72,10 +78,10 @@ var (
 	specErr atomic.Int64
 )
 
-func (c *Ctx) Eval(n int)     { evals.Add(int64(n)) }
-func (c *Ctx) Case()          { cases.Add(1) }
-func (c *Ctx) Nontrivial()    { nontriv.Add(1) }
-func (c *Ctx) Tag(t string)   { c.mu.Lock(); c.sum.Tags[t]++; c.mu.Unlock() }
+func (c *Ctx) Eval(n int)   { evals.Add(int64(n)) }
+func (c *Ctx) Case()        { cases.Add(1) }
+func (c *Ctx) Nontrivial()  { nontriv.Add(1) }
+func (c *Ctx) Tag(t string) { c.mu.Lock(); c.sum.Tags[t]++; c.mu.Unlock() }
 func (c *Ctx) Extra(k string, n int64) {
 	c.mu.Lock()
 	if c.sum.Extra == nil {
@@ -100,8 +106,20 @@ func (c *Ctx) Diverge(prop, api, want, got, finding string, kase any, tags ...st
 		b, _ = json.Marshal(fmt.Sprintf("%v", kase))
 	}
 	d := Div{T: "div", Prop: prop, API: api, Want: clip(want), Got: clip(got), Finding: finding, Case: b, Tags: tags}
+	key := finding
+	if key == "" {
+		key = "api:" + api
+	}
 	c.mu.Lock()
-	*c.divs = append(*c.divs, d)
+	// full records for the first divergences of each kind, a count for the rest
+	if divCount[key]++; divCount[key] <= divKeep {
+		*c.divs = append(*c.divs, d)
+	} else {
+		if c.sum.Suppressed == nil {
+			c.sum.Suppressed = map[string]int64{}
+		}
+		c.sum.Suppressed[key]++
+	}
 	c.mu.Unlock()
 }
 
